@@ -167,8 +167,55 @@ def variant_fact(px, pass_variants):
     return m
 
 
+LIFT_DEPTH = 2
+
+
+def lifted_facts(prog, H, args, frames, depth=0):
+    """facts that H's success implies: every branch fact of H (terms with H's parameters replaced by the call's argument
+    terms) whose edge alone separates H's entry from all of its Ok/Some returns.  Used to see a guard through an extracted
+    private helper: if `helper(a, b)?` succeeded, the check inside the helper succeeded on (a, b)."""
+    key = (H.key, args, depth)
+    if key in _lift_cache:
+        return _lift_cache[key]
+    _lift_cache[key] = []
+    sub = {i + 1: a for i, a in enumerate(args)}
+    cx = TermCx(prog, H, sub, 1, frames=frames)
+    facts = branch_facts(prog, H, cx)
+    out_ty = H.j.get("output") or ""
+    if out_ty.startswith("core::result::Result<"):
+        oks = ok_sinks(H)
+    elif out_ty.startswith("core::option::Option<"):
+        oks = {b for (b, k, rv) in ret_writes(H) if not (k == "other" and rv.get("k") == "agg" and rv.get("variant") == "None")}
+    else:
+        return []
+    out = []
+    for (e, fa) in facts:
+        if not sep(H, {e}, oks):
+            out.append(fa)
+            if depth < LIFT_DEPTH and fa[0] == "succ" and fa[2]:
+                out += _lift_call(prog, fa[1], frames, depth + 1)
+    _lift_cache[key] = out
+    return out
+
+
+def _lift_call(prog, X, frames, depth):
+    while isinstance(X, tuple) and X and X[0] in ("map_err", "ok_or"):
+        X = X[1]
+    if not (isinstance(X, tuple) and X and X[0] == "call"):
+        return []
+    H = prog.fns.get(X[1])
+    if H is None or not H.has_body or not H.crate.startswith("frost") or H.j.get("impl_trait") and False:
+        return []
+    if X[4] is not None and X[1] not in prog.fns:
+        return []
+    return lifted_facts(prog, H, X[2], frames + (X[3],), depth)
+
+
+_lift_cache = {}
+
+
 class FnView:
-    """per-function cache of terms and branch facts"""
+    """per-function cache of terms and branch facts (with facts lifted out of called workspace helpers)"""
     _cache = {}
 
     def __init__(self, prog, fn):
@@ -176,6 +223,19 @@ class FnView:
         self.fn = fn
         self.cx = TermCx(prog, fn)
         self.facts = branch_facts(prog, fn, self.cx)
+        extra = []
+        for (e, fa) in self.facts:
+            if fa[0] == "succ" and fa[2]:
+                X = fa[1]
+                Y = X
+                while isinstance(Y, tuple) and Y and Y[0] in ("map_err",):
+                    Y = Y[1]
+                if isinstance(Y, tuple) and Y and Y[0] == "call" and Y[1] in prog.fns and Y[1] != fn.key:
+                    H = prog.fns[Y[1]]
+                    if H.has_body and H.crate.startswith("frost"):
+                        for lf in _lift_call(prog, Y, (), 0):
+                            extra.append((e, lf))
+        self.facts = self.facts + extra
 
     @classmethod
     def get(cls, prog, fn):
@@ -858,37 +918,74 @@ def wrappers(ctx, rel_names):
 
 # ---------------- refusal inventory: the set of ways a function can return Err ----------------
 
-def err_inventory(prog, fn):
-    """multiset of refusal sites of fn: 'Err:<Variant>' for explicit `Err(Error::Variant..)` returns and
-    '?:<callee or ok_or:Variant>' for propagated errors"""
+def err_inventory(prog, fn, table_keys=(), depth=0):
+    """the ways fn can return Err, normalised so that equivalent spellings agree:
+       'V:<Variant>'  an explicit refusal (`return Err(E::V)`, `x.ok_or(E::V)?`, `None => Err(E::V)`), multiset;
+       '?:<callee>'   an error that originates in a workspace callee's failure (`callee(..)?`, or an Err arm of a match
+                      on its result, whatever error value is built there), set;
+    errors from private helpers that are not themselves listed are expanded into the helper's own inventory."""
     v = FnView.get(prog, fn)
     inv = {}
-    def add(k):
-        inv[k] = inv.get(k, 0) + 1
+
+    def add(k, n=1):
+        inv[k] = inv.get(k, 0) + n
+
+    def source_call(t):
+        while isinstance(t, tuple) and t and t[0] in ("map_err", "errval", "residual", "ok", "try"):
+            t = t[1]
+        return t
+
+    def from_callee(src):
+        """'?:name' (expanding unlisted workspace helpers) for a failing workspace call, else None"""
+        if not (isinstance(src, tuple) and src and src[0] == "call"):
+            return None
+        H = prog.fns.get(src[1])
+        name = src[1].rsplit("::", 1)[-1]
+        if H is not None and H.has_body and H.crate.startswith("frost"):
+            if src[1] not in table_keys and H.j.get("vis", "") != "Public" and depth < 2 and not H.j.get("impl_trait"):
+                for k, n in err_inventory(prog, H, table_keys, depth + 1).items():
+                    add(k, n)
+                return True
+            add("?:" + name)
+            return True
+        if src[4] is not None or src[1].startswith("frost"):   # trait method on the ciphersuite / unresolved workspace call
+            add("?:" + name)
+            return True
+        return None
+
+    # failure arms: blocks reachable only through the failure edge of a fallible workspace call
+    fail_region = {}
+    for (e, fa) in v.facts:
+        if fa[0] == "succ" and not fa[2]:
+            src = source_call(fa[1])
+            if isinstance(src, tuple) and src and src[0] == "call":
+                others = [e2 for (e2, f2) in v.facts if e2[0] == e[0] and f2[0] == "succ" and f2[2]]
+                reach_ok = set().union(*[fn.reach(e2[1]) for e2 in others]) if others else set()
+                for b in fn.reach(e[1]) - reach_ok:
+                    fail_region.setdefault(b, src)
     for (b, k, w) in ret_writes(fn):
         if k == "err":
             t = v.cx.operand(w["ops"][0])
+            if b in fail_region and from_callee(fail_region[b]):
+                continue
             if t[0] == "agg":
-                add("Err:" + str(t[3]))
-            elif is_call(t, name="into") or is_call(t, name="from"):
-                inner = t[2][0]
-                add("Err:" + (str(inner[3]) if inner[0] == "agg" else "converted"))
+                add("V:" + str(t[3]))
+            elif (is_call(t, name="into") or is_call(t, name="from")) and t[2] and t[2][0][0] == "agg":
+                add("V:" + str(t[2][0][3]))
             else:
-                add("Err:?")
+                add("V:?")
         elif k == "residual":
             t = v.cx.call(w, (fn.key, b))
-            src = t[1] if t[0] == "residual" else t
-            if src[0] == "errval":
-                src = src[1]
-            while src[0] == "map_err":
-                src = src[1]
-            if src[0] == "ok_or":
+            src = source_call(t)
+            if isinstance(src, tuple) and src and src[0] == "ok_or":
                 e = src[2]
-                add("?:ok_or:" + (str(e[3]) if e[0] == "agg" else "?"))
-            elif src[0] == "call":
+                add("V:" + (str(e[3]) if e[0] == "agg" else "?"))
+            elif from_callee(src):
+                pass
+            elif isinstance(src, tuple) and src and src[0] == "call":
                 add("?:" + src[1].rsplit("::", 1)[-1])
             else:
-                add("?:" + src[0])
+                add("V:?")
     return inv
 
 
@@ -904,8 +1001,10 @@ def refusal_inventory(ctx):
         f = ctx.anchor(key, rule="REFUSALS")
         if not f:
             continue
-        got = err_inventory(P, f)
-        added = {k: n - exp.get(k, 0) for k, n in got.items() if n > exp.get(k, 0)}
+        got = err_inventory(P, f, TABLE.keys())
+        # explicit refusals: multiset (a second refusal with an existing variant is still an added refusal);
+        # propagated failures: set
+        added = {k: n - exp.get(k, 0) for k, n in got.items() if (k.startswith("V:") and n > exp.get(k, 0)) or (k.startswith("?:") and k not in exp)}
         ctx.check(not added, "REFUSALS", key, "no-added-refusal",
                   "%s has gained refusal site(s) %s beyond the reviewed set %s: inputs the property requires to succeed "
                   "may now be rejected" % (short(key), added, exp), f.loc, {"found": got})
